@@ -648,6 +648,13 @@ func opSeq(fd *ast.FuncDecl) []string {
 					out = append(out, pre+"close:"+exprText(v.Args[0]))
 				} else if interesting[f] {
 					out = append(out, pre+f)
+				} else if strings.HasPrefix(f, "atomic.") && len(v.Args) >= 1 {
+					// atomic operations with their target and, for stores, the value (the recovery fast path of `reconnecting`)
+					t := pre + f + ":" + exprText(v.Args[0])
+					if len(v.Args) >= 2 {
+						t += "=" + exprText(v.Args[1])
+					}
+					out = append(out, t)
 				}
 			}
 			return true
